@@ -201,7 +201,7 @@ def pyDefault : Nat → Schemas → Ty → Option (List (String × Val)) → DRe
           -- replaced by that field's own default expression (with the override as ITS overrides)
           let named := (ov.getD []).filter fun kv => fields.any fun f => f.name == kv.1
           if named.any (fun kv => fields.any fun f => f.name == kv.1 && isConstField f) then
-            .unsup "override of a constant field (unexpected keyword argument)"
+            .err      -- TypeError: __init__() got an unexpected keyword argument (constants are no parameters)
           else
           (mapRes (fun (kv : String × Val) =>
               match fields.find? (fun f => f.name == kv.1) with
